@@ -25,7 +25,7 @@ import zlib
 
 from mc import pattern
 from mc.models import DATA, HOLE, ZERO, GuestDisk, RawDisk
-from mc.vfile import Image
+from mc.vfile import Image, entries, entries1, slot_range
 
 S = 512
 HOSTED = "<4sIIQQQQIQQQB4sH433s"
@@ -89,7 +89,7 @@ def build_hosted(states, slots, grain=8, ngte=512, capacity=None, window_at=0, t
         pos = 1 + desc_size
     if stride is None:
         stride = grain
-    used_tables = sorted({(window_at + i) // ngte for i, st in enumerate(states) if st != HOLE} if elide_empty_gt
+    used_tables = sorted({(window_at + i) // ngte for i, st in entries1(states) if st != HOLE} if elide_empty_gt
                          else set(range(ngd)))
     gd_sectors = (ngd * 4 + S - 1) // S
     # --- physical plan -------------------------------------------------------------------------------------
@@ -100,7 +100,7 @@ def build_hosted(states, slots, grain=8, ngte=512, capacity=None, window_at=0, t
         d0 = data_base if data_base is not None else (tables_end + grain - 1) // grain * grain
     else:
         d0 = data_base if data_base is not None else (pos + grain - 1) // grain * grain
-    used = {p for st, p in zip(states, slots) if st in PLACED}
+    used = {p for _i, st, p in entries(states, slots) if st in PLACED}
     if nslots is None:
         nslots = max(used, default=-1) + 1
     data_end = d0 + (nslots + 1) * stride
@@ -116,14 +116,14 @@ def build_hosted(states, slots, grain=8, ngte=512, capacity=None, window_at=0, t
     # --- grains ----------------------------------------------------------------------------------------------
     ent = {}
     inv = {}
-    for i, (st, p) in enumerate(zip(states, slots)):
+    for i, st, p in entries(states, slots):
         g = window_at + i
         if st in PLACED:
             ent[g] = d0 + p * stride
             inv[p] = (g, st)
         elif st == ZERO:
             ent[g] = 1
-    for p in range(nslots + 1):
+    for p in slot_range(0, nslots + 1, used):
         sec = d0 + p * stride
         if p in inv:
             g, st = inv[p]
@@ -194,12 +194,12 @@ def build_cowd(states, slots, grain=8, capacity=None, window_at=0, total_grains=
     ngd = gd_entries or (capacity + NGTE * grain - 1) // (NGTE * grain)
     gd_sector = 4
     gd_sectors = (ngd * 4 + S - 1) // S
-    used_tables = sorted({(window_at + i) // NGTE for i, st in enumerate(states) if st != HOLE} if elide_empty_gt
+    used_tables = sorted({(window_at + i) // NGTE for i, st in entries1(states) if st != HOLE} if elide_empty_gt
                          else set(range(ngd)))
     gt0 = gd_sector + gd_sectors
     gt_sectors = NGTE * 4 // S
     d0 = data_base if data_base is not None else (gt0 + len(used_tables) * gt_sectors + grain - 1) // grain * grain
-    used = {p for st, p in zip(states, slots) if st == DATA}
+    used = {p for _i, st, p in entries(states, slots) if st == DATA}
     if nslots is None:
         nslots = max(used, default=-1) + 1
     img = Image(label, name)
@@ -207,11 +207,11 @@ def build_cowd(states, slots, grain=8, capacity=None, window_at=0, total_grains=
     img.put(0, hdr.ljust(2048, b"\0"))
     ent = {}
     inv = {}
-    for i, (st, p) in enumerate(zip(states, slots)):
+    for i, st, p in entries(states, slots):
         if st == DATA:
             ent[window_at + i] = d0 + p * grain
             inv[p] = window_at + i
-    for p in range(nslots + 1):
+    for p in slot_range(0, nslots + 1, used):
         sec = d0 + p * grain
         if p in inv:
             img.put_pattern(sec * S, grain * S, layer, inv[p] * grain * S)
@@ -249,14 +249,14 @@ def build_sesparse(states, slots, grain=8, gt_sectors=64, capacity=None, window_
     gd_sectors = max(1, (ngt * 8 + S - 1) // S)
     gd_off = 16
     gt_off = gd_off + gd_sectors
-    used_tables = sorted({(window_at + i) // gte for i, st in enumerate(states) if st != HOLE} if elide_empty_gt
+    used_tables = sorted({(window_at + i) // gte for i, st in entries1(states) if st != HOLE} if elide_empty_gt
                          else set(range(ngt)))
     order = list(used_tables)
     if gt_order == "desc":
         order = order[::-1]
     tindex = {t: order.index(t) for t in used_tables}  # physical table index named by the GD entry
     grains_off = (gt_off + max(1, len(used_tables)) * gt_sectors + 8 + grain - 1) // grain * grain
-    used = {p for st, p in zip(states, slots) if st == DATA}
+    used = {p for _i, st, p in entries(states, slots) if st == DATA}
     if nslots is None:
         nslots = max(used, default=-1) + 1
     img = Image(label, name)
@@ -275,7 +275,7 @@ def build_sesparse(states, slots, grain=8, gt_sectors=64, capacity=None, window_
     img.put(gd_off * S, bytes(gd))
     tabs = {t: bytearray(gt_sectors * S) for t in used_tables}
     inv = {}
-    for i, (st, p) in enumerate(zip(states, slots)):
+    for i, st, p in entries(states, slots):
         g = window_at + i
         t = g // gte
         if st == HOLE:
@@ -292,7 +292,7 @@ def build_sesparse(states, slots, grain=8, gt_sectors=64, capacity=None, window_
         img.field(f"gt[{t}][{g % gte}]", (gt_off + tindex[t] * gt_sectors) * S + (g % gte) * 8, 8, "<", "table")
     for t in used_tables:
         img.put((gt_off + tindex[t] * gt_sectors) * S, bytes(tabs[t]))
-    for p in range(nslots + 1):
+    for p in slot_range(0, nslots + 1, used):
         sec = grains_off + (cluster_base + p) * grain
         if p in inv:
             img.put_pattern(sec * S, grain * S, layer, inv[p] * grain * S)
@@ -316,9 +316,9 @@ def model_flat(nsec, layer=1):
 def model(states, grain, capacity=None, window_at=0, total_grains=None, layer=1, parent=None):
     W = len(states)
     total = total_grains or (window_at + W)
-    units = [HOLE] * total
+    units = [HOLE] * total if total <= 200000 else {}
     layers = {}
-    for i, st in enumerate(states):
+    for i, st in entries1(states):
         g = window_at + i
         if st in PLACED:
             units[g] = DATA
@@ -400,7 +400,7 @@ def selfvalidate():
             cap, grain, gb = decode_hosted(f.peek_at, f.size)
             assert (cap, grain) == (513 * 8 - 1, 8)
             ref = model(states, 8, 513 * 8, 510, 513)
-            for i, st in enumerate(states):
+            for i, st in entries1(states):
                 got = gb(510 + i)
                 exp = ref.content((510 + i) * 4096, 4096)
                 assert (got is None and st == HOLE) or got == exp, (states, slots, i)
@@ -410,7 +410,7 @@ def selfvalidate():
         f = img.sparse(log=False)
         cap, grain, gb = decode_sesparse(f.peek_at)
         ref = model(states, 8, None, 4095, 4098)
-        for i, st in enumerate(states):
+        for i, st in entries1(states):
             got = gb(4095 + i)
             assert (got is None and st in (HOLE, FALL)) or got == ref.content((4095 + i) * 4096, 4096), (states, slots, i)
         n += 1
